@@ -38,6 +38,38 @@ SEEDS = {
  "S-C18-3": ("C18", "same change as S-C12-1 / S-C15-2 (replace_op files the node under the new class name), found independently for C18",
              "replace_op with a gate of another class, then a count / depth metric: CNOT replaced by CZ still counted, an "
              "Identity replaced by a Hadamard removed by the metric's remove_identity"),
+ "S-C01-3": ("C01", "DensityMatrixCompiler caches the full-register unitary of a gate under (gate type, total qubits, register types, "
+             "register numbers) - the number of photons is not in the key", "ONE compiler object compiling two circuits with the "
+             "same number of qubits but another photon / emitter split (1p+2e then 2p+1e): the cached unitary sits at the wrong "
+             "qubit index; a fresh compiler per circuit is unaffected"),
+ "S-C02-3": ("C02", "TimeReversedSolver memoises the final emitter-disentangling circuit in a class-level dict keyed by the Pauli "
+             "table WITHOUT the signs", "two solves in one process whose final emitter tableaux have the same Pauli table and "
+             "different signs (two particular 4-vertex graphs in sequence; ~10 % of targets in a sweep at n = 5): stale X gates"),
+ "S-C03-3": ("C03", "height_dict(graph=...) computes through an lru_cache keyed by the graph OBJECT", "height_dict / height_max "
+             "queried, the same nx.Graph edited in place, queried again: the first answer comes back"),
+ "S-C05-3": ("C05", "inner_product caches the inverse circuit of its first argument under the UNSIGNED Pauli labels",
+             "two fidelity calls in one process whose first arguments list the same Pauli strings with different signs: "
+             "fidelity(|1>, |1>) = 0, asymmetric"),
+ "S-C07-3": ("C07", "remove_qubit (deterministic branch) queues the clearing of the other rows only if the +/-Z row's sign is 1 - "
+             "read BEFORE the queued row products have run", "removal of an unentangled qubit in |1> on which >= 2 "
+             "destabilizers have an X (X(1), CNOT(1,2), CNOT(0,2), remove 2): the remaining qubits change"),
+ "S-C08-3": ("C08", "_canonical_copy rebuilds a bare tableau from its table (StabilizerTableau(table) resets the phases)",
+             "stabilizer_to_graph / QuantumState s -> g on |G> in a generating set with a negative generator (K0 K1 K2 = -XXX), "
+             "tableau passed bare (not as [(1.0, tableau)]): AssertionError 'not a graph state'"),
+ "S-C11-3": ("C11", "_full_rank_hadamard_block applies its Hadamards with the sign-free helper linalg.hadamard_transform",
+             "a state that needs the fallback of inverse_circuit (from 6 qubits on, ~0.4 %) with a Y on a fallback Hadamard "
+             "position: wrong X corrections, circuit maps to another basis state"),
+ "S-C15-3": ("C15", "unwrap_nodes iterates over node_dict['OneQubitGateWrapper'] while removing from it: every second wrapper stays",
+             ">= 2 wrappers in one circuit: wrapped and unwrapped forms compare different, two circuits whose remaining "
+             "wrappers differ compare equal"),
+ "S-C16-3": ("C16", "_full_seq gets an lru_cache; _partial_orbit extends the returned (now cached) list in place",
+             "linear_partial_orbit called AGAIN in one process on a chain of the same even length (or 4 then 3): duplicates"),
+ "S-C19-3": ("C19", "population_initialization builds the warm-start population as [(inf, circuit.copy())] * n_pop (one shared object)",
+             "the circuit= argument (initial circuit handed in), n_pop >= 2, selection off: stored scores belong to "
+             "intermediate states of the one shared circuit"),
+ "S-C20-3": ("C20", "find_local_clifford_by_matrix first tries members found before, accepting on |tr(U^dagger V)| = 2 without "
+             "checking unitarity", "after earlier look-ups: non-unitary matrices with that overlap (2 M, M times a shear, "
+             "M diag(2,0)) and unitaries within ~0.5 degrees of a member are accepted instead of rejected"),
  "S-C01-2": ("C01", "transformation.y_gate rewritten as one sign update with (x | z) instead of (x ^ z)", "a SigmaY gate (plain or in a "
              "wrapper) on a qubit on which a stabilizer generator has a Y (H, P, Y on one qubit): the stabilizer backend's state "
              "is orthogonal to the circuit's state, the density-matrix backend is right"),
@@ -150,7 +182,12 @@ SEEDS = {
              "differs from its library representative by a phase with negative real part: simplify_local_clifford raises"),
 }
 STRENGTHENED = {
- "S-C06-1": "grid extended by the endpoint p = 1", "S-C04-3": "the caller-chosen remove_op(node=...) on any operation node",
+ "S-C06-1": "grid extended by the endpoint p = 1", "S-C01-3": "most compiles go through one long-lived compiler object per backend (engine/circuits.py), used by every compile leg",
+ "S-C03-3": "the same graph object queried, edited in place, queried again",
+ "S-C16-3": "scripted explorers called repeatedly in one process, sizes interleaved, held to distinctness (their docstring)",
+ "S-C19-3": "warm-start runs (circuit= argument), selection off and on",
+ "S-C20-3": "near misses of every library member (scaled, sheared, rank-one, rotated by 0.3 / 1.1 degrees) after the look-ups",
+ "S-C04-3": "the caller-chosen remove_op(node=...) on any operation node",
  "S-C09-3": "~1,000 equivalent pairs at 6-7 vertices, equivalence certified by a complementation sequence TLC replays (lc_decide_cert)",
  "S-C12-3": "edge list of a two-qubit insert_at in either order",
  "S-C14-3": "circuits edited after construction (insert_at / unwrap / group) - also used by C01",
